@@ -11,8 +11,8 @@ EXPLANATION = ('llsym runs the real mj_constraintUpdate_impl in real-algebraic m
                'cost, force and cone Hessian as terms over the residual jar and the parameters. A symbolic differentiator over these terms gives d cost / d jar_k; z3 (NRA) proves for ALL '
                'residuals, stiffnesses, friction coefficients: force_k = -d cost/d jar_k inside every zone; cost and force agree on every zone boundary (C1); -force is non-decreasing in jar for '
                'scalar rows; the stored elliptic-cone Hessian equals d(-force)/d jar entry-wise and is symmetric; the zones of each row type cover all residuals (no uncovered case).')
-BOUNDS = {'quick': {'rows': 'equality, friction-loss, limit, pyramidal/frictionless contact row, elliptic contact condim 1, 3, 4 (and 6 for the gradient)', 'compositions': 'each row type alone and eq+fric+limit+ell3 together'},
-          'thorough': {'rows': '+ elliptic condim 6 for C1 continuity and the Hessian block'}}
+BOUNDS = {'quick': {'rows': 'equality, friction-loss, limit, pyramidal/frictionless contact row, elliptic contact condim 1, 3, 4, 6 (gradient, C1, Hessian block)', 'compositions': 'each row type alone and eq+fric+limit+ell3 together'},
+          'thorough': {'same': True}}
 OUTSIDE = 'positive semi-definiteness of the cone Hessian beyond what C1 + per-zone gradients imply; floating-point rounding; the solvers that call this function.'
 ASSUMPTIONS = ['D > 0, R > 0 with D*R = 1, floss >= 0, mu > 0, friction > 0', 'rows of one elliptic contact satisfy D_j mu^2 = D_0 friction_{j-1}^2 (established by mj_makeImpedance)', 'real-number semantics']
 BUDGET = {'quick': 600, 'thorough': 2400}
@@ -163,5 +163,5 @@ def units(tier):
     if True:
         u += [('gradient_ell4', 'unit_gradient', {'rows': [('ell', 4)], 'tag': 'ell4'}), ('gradient_ell6', 'unit_gradient', {'rows': [('ell', 6)], 'tag': 'ell6'}), ('C1_ell4', 'unit_c1', {'kind': 'ell', 'dim': 4}),
               ('hessian_dim4', 'unit_hessian', {'dim': 4})]
-    if tier == 'thorough': u += [('C1_ell6', 'unit_c1', {'kind': 'ell', 'dim': 6}), ('hessian_dim6', 'unit_hessian', {'dim': 6})]
+    u += [('C1_ell6', 'unit_c1', {'kind': 'ell', 'dim': 6}), ('hessian_dim6', 'unit_hessian', {'dim': 6})]
     return u
